@@ -28,6 +28,8 @@ pub struct Tap {
     pub events_only: bool,
     /// clear the dirty set before every call (what an embedder repainting after each call does)
     pub autoclear: bool,
+    /// every call received since the log was last taken (for the decoding comparison of byte sessions)
+    pub calls_log: Vec<String>,
 }
 
 pub fn panic_msg(e: Box<dyn std::any::Any + Send>) -> String {
@@ -55,6 +57,7 @@ impl Tap {
             last_display: None,
             events_only: false,
             autoclear: false,
+            calls_log: vec![],
         }
     }
 
@@ -160,6 +163,7 @@ impl Tap {
             return;
         }
         self.ncalls += 1;
+        self.calls_log.push(c.line());
         if self.events_only {
             if !self.quiet {
                 self.out.push(format!("E {}", c.line()));
